@@ -1,6 +1,6 @@
 ---- MODULE MCConsDec ----
 (* Small-scope instances of ConsDecModel: framebuffers of 3..5 x 2..5 pixels at 8, 15, 16, 24 and 32 bpp   *)
-(* (one or two pixel-aligned padding slots per row), a 4x3 text console, three logos (left / centre /      *)
+(* (one layout with 10-bit colour fields; one or two pixel-aligned padding slots per row), a 4x3 text console, three logos (left / centre /      *)
 (* right, with and without a transparent colour, one with an out-of-range colour index), two fonts, eight  *)
 (* palette updates (same colour, alpha-only change, colour collision, logo-mapped entry, index 16).        *)
 (* MCUnaligned holds geometries whose pitch is not a multiple of the pixel size (Dev_ReplaceLinearScan).   *)
@@ -11,6 +11,7 @@ L555 == <<10, 5, 5, 5, 0, 5>>
 L565 == <<11, 5, 5, 6, 0, 5>>
 L888 == <<16, 8, 8, 8, 0, 8>>
 LHi  == <<24, 8, 16, 8, 8, 8>>
+L10  == <<20, 10, 10, 10, 0, 10>>      \* 10 bits per channel: components left-justified, low 2 bits free
 
 \* the palettes as the pinned tree builds them
 MCDefPal == [i \in 1..256 |->
@@ -24,8 +25,8 @@ Fb(id, w, h, bpp, ci, pad) == [id |-> id, cons |-> "fb", w |-> w, h |-> h, pitch
 Vga(id, w, h) == [id |-> id, cons |-> "vga", w |-> w, h |-> h, pitch |-> w, bpp |-> 0, ci |-> L8]
 
 MCFullG  == {Fb(1, 5, 5, 16, L565, 2), Fb(2, 4, 4, 24, L888, 3), Fb(3, 4, 4, 32, L888, 4), Fb(4, 5, 4, 8, L8, 2), Fb(5, 4, 5, 15, L555, 2),
-             Fb(6, 3, 3, 32, LHi, 8), Fb(7, 4, 3, 16, L565, 0), Fb(8, 3, 4, 24, L888, 6), Vga(20, 4, 3)}
-MCQuickG == {Fb(1, 5, 5, 16, L565, 2), Fb(2, 4, 4, 24, L888, 3), Fb(4, 5, 4, 8, L8, 2), Fb(6, 3, 3, 32, LHi, 8), Vga(20, 4, 3)}
+             Fb(6, 3, 3, 32, LHi, 8), Fb(7, 4, 3, 16, L565, 0), Fb(8, 3, 4, 24, L888, 6), Fb(9, 3, 3, 32, L10, 4), Vga(20, 4, 3)}
+MCQuickG == {Fb(1, 5, 5, 16, L565, 2), Fb(2, 4, 4, 24, L888, 3), Fb(4, 5, 4, 8, L8, 2), Fb(6, 3, 3, 32, LHi, 8), Fb(9, 3, 3, 32, L10, 4), Vga(20, 4, 3)}
 MCFewG   == {Fb(1, 5, 5, 16, L565, 2), Fb(4, 5, 4, 8, L8, 2), Fb(6, 3, 3, 32, LHi, 8), Vga(20, 4, 3)}
 MCUnaligned == {Fb(31, 4, 3, 16, L565, 1), Fb(32, 3, 2, 24, L888, 1), Fb(33, 3, 3, 32, L888, 2)}
 
